@@ -327,7 +327,9 @@ def r6(tree, rep):
     en = g.call_nodes(lambda c: dotted(c.func) == "self._consumer_deferred.errback")
     tests = [n for n in g.nodes(lambda s: isinstance(s, ast.If)) if is_self_attr(g.stmt[n].test, "_consumer_deferred")]
     ok = len(errs) == 1 and bool(tests) and all(not g.branch_never_reaches(t, 'T', en) for t in tests) \
-        and g.must_pass(tests, explicit_only=True)
+        and g.must_pass(tests, explicit_only=True) \
+        and all(g.must_pass(en, start=g.branch_targets(t, 'T'), to=[g.exit], explicit_only=True) for t in tests) \
+        and not [c for c in ast.walk(fn) if isinstance(c, ast.Call) and dotted(c.func) == "self._consumer_deferred.callback"]
     rep.check("C06.R6", "connectionLost errbacks the consumer Deferred whenever one is outstanding", ok, site(fn, TR),
               key="C06.R6:connectionLost:consumer-deferred",
               what="a transfer cut short no longer fails the writeToFile/connectConsumer Deferred")
@@ -363,6 +365,8 @@ MUTANTS = [
            also=((TR, "        self._consumer = consumer\n        self._consumer_bytes_written = 0\n", "        self._consumer = consumer\n        consumer.registerProducer(self, True)\n        self._consumer_bytes_written = 0\n"),)),
     Mutant("deliver-lifo", TR, "            r = self._inbound_records.popleft()\n            d = self._waiting_reads.popleft()", "            r = self._inbound_records.pop()\n            d = self._waiting_reads.popleft()", "C06.R5"),
 ]
+MUTANTS.append(Mutant("lost-fires-consumer-on-clean-close", TR, "        if self._consumer_deferred:\n            self._consumer_deferred.errback(error.ConnectionClosed())",
+                      "        if self._consumer_deferred:\n            if reason is not None and reason.check(error.ConnectionDone):\n                self._consumer_deferred.callback(self._consumer_bytes_written)\n            else:\n                self._consumer_deferred.errback(error.ConnectionClosed())", "C06.R6"))
 REWRITES = [
     Rewrite("nonce-check-eq-form", TR, "        if nonce != self.next_receive_nonce:\n            raise BadNonce(\n                \"received out-of-order record: got %d, expected %d\" %\n                (nonce, self.next_receive_nonce))\n        self.next_receive_nonce += 1\n        record = self.receive_box.decrypt(encrypted)\n        return record",
             "        if nonce == self.next_receive_nonce:\n            self.next_receive_nonce += 1\n            record = self.receive_box.decrypt(encrypted)\n            return record\n        raise BadNonce(\"received out-of-order record\")", desc="== form of the guard"),
